@@ -321,7 +321,7 @@ def dag_names_cases(jmax, kmax, shapes, extras, orders=(0, 1)):
 #      that starts recognising such shapes (a "compact" output such as (distinct ...), (xor ...), chained = or <)
 #      breaks the token-exact correspondence on the genuine expansions and is judged by meaning on the near-misses,
 #      under ALL interpretations over a 2-3 element domain.
-def small_interps(f, rnd, dom=3, cap=1100):
+def small_interps(f, rnd, dom=3, cap=400):
     """All interpretations of the free symbols of f over small domains (Int: 0..dom-1, Real: 0, 1/2, 1,
     Bool, BV of width <= 2: all values, uninterpreted sorts: dom elements); a random sample of `cap` when there
     are more; None if a symbol has another sort."""
@@ -434,6 +434,8 @@ def derived_genuine(env, which, kind, n):
             rel = {"ugt": m.BVUGT, "uge": m.BVUGE, "sgt": m.BVSGT, "sge": m.BVSGE, "eq_chain": m.Equals}[which]
             cs = [rel(a, b) for a, b in zip(ts, ts[1:])]
             return m.And(cs) if len(cs) > 1 else cs[0]
+        if which == "smod" and n > 2:
+            return None                      # (its expansion nests exponentially as a tree)
         if which in ("nand", "nor", "xnor", "smod", "comp"):
             fn = {"nand": m.BVNand, "nor": m.BVNor, "xnor": m.BVXnor, "smod": m.BVSMod, "comp": m.BVComp}[which]
             r = ts[0]
